@@ -44,7 +44,8 @@ pub fn seeds() -> Vec<Seed> {
 		s.metadata = if i % 4 == 3 { None } else { Some(gen::gen_meta(&mut rng, 2, 3)) };
 		s.ends = if i % 5 == 4 { 0 } else if i % 5 == 3 { 2 } else { 1 };
 		if crate::spec::gte(v, (3, 3)) && i % 2 == 0 {
-			s.gecko_blocks = 1 + i % 2;
+			// 1, 2 or 3 message-splitter blocks (runs of >= 2 blocks have inner boundaries)
+			s.gecko_blocks = 1 + (i / 2) % 3;
 			s.gecko_tail = 9;
 		}
 		let b = gen::build(&s, &mut rng);
